@@ -103,10 +103,16 @@ def populate(d, name, ext, main, other_ext, lower, longer, pyc, delta):
         touch(os.path.join(d, name + 'X' + ext), SRC_MTIME + 100)
         touch(os.path.join(d, 'X' + name + ext), SRC_MTIME + 100)
     if pyc:
-        magic = importlib.util.MAGIC_NUMBER if pyc == 1 else b'\x00\x00\r\n'
+        # pyc: 1 time-stamped, same age as the .py; 2 foreign magic; 3 time-stamped, source one second older than ours;
+        # 4 time-stamped, source one second newer; 5 hash-based (PEP 552 flags bit 0: the next 8 octets are a hash)
+        magic = importlib.util.MAGIC_NUMBER if pyc != 2 else b'\x00\x00\r\n'
+        recorded = {1: SRC_MTIME + delta, 2: SRC_MTIME + delta, 3: SRC_MTIME - 1, 4: SRC_MTIME + 1}.get(pyc)
         # a legacy side-by-side byte code file as py_compile writes it: magic, flags, source mtime, source size
-        touch(os.path.join(d, name + '.pyc'), SRC_MTIME + 100,
-              magic + struct.pack('<LLL', 0, SRC_MTIME + delta, 1) + b'\x00' * 8)
+        if pyc == 5:
+            body = struct.pack('<L', 1) + b'\xec\x9f\x6e\xbe\x01\x02\x03\x04'   # read as a time this would be year 2071
+        else:
+            body = struct.pack('<LLL', 0, recorded, 1)
+        touch(os.path.join(d, name + '.pyc'), SRC_MTIME + 100, magic + body + b'\x00' * 8)
 
 
 def ask(searcher, name, rebuild):
@@ -133,7 +139,7 @@ class FileSearchers(object):
                 for n in ('FOO-MIB', 'Foo')]
 
     def cases(self, block, tier):
-        pycs = (0, 1, 2) if block['kind'] in ('py', 'pkg', 'pkgdot', 'pkgdotdecoy') else (0,)
+        pycs = (0, 1, 2, 3, 4, 5) if block['kind'] in ('py', 'pkg') else (0, 1, 2) if block['kind'].startswith('pkg') else (0,)
         for main, other, lower, longer, pyc, delta, rebuild in itertools.product(
                 (0, 1, 2), (0, 1), (0, 1), (0, 1), pycs, (-2, -1, 0, 1, 2), (0, 1)):
             yield {'kind': block['kind'], 'name': block['name'], 'main': main, 'other': other, 'lower': lower,
@@ -178,7 +184,7 @@ class FileSearchers(object):
                 s = PyPackageSearcher(pkgname)
             got = ask(s, name, bool(case['rebuild']))
             # a transformed copy is X.py or a valid side-by-side X.pyc (which records the mtime of its source)
-            fresh = (case['main'] == 1 or case['pyc'] == 1) and case['delta'] >= 0
+            fresh = ((case['main'] == 1 or case['pyc'] == 1) and case['delta'] >= 0) or case['pyc'] == 4
             if case['rebuild']:
                 want = ('return:None',)
             elif fresh:
@@ -189,7 +195,7 @@ class FileSearchers(object):
             if got not in want:
                 feat = []
                 if case['pyc']:
-                    feat.append('legacy-pyc-%s' % ('valid' if case['pyc'] == 1 else 'badmagic'))
+                    feat.append('legacy-pyc-%s' % {1: 'valid', 2: 'badmagic', 3: 'stale', 4: 'fresh', 5: 'hash-based'}[case['pyc']])
                 if case['main'] == 2:
                     feat.append('directory')
                 feat.append('delta%+d' % case['delta'] if case['main'] == 1 else 'no-file')
@@ -206,4 +212,76 @@ class FileSearchers(object):
             shutil.rmtree(d, ignore_errors=True)
 
 
-FAMILIES = [SearcherLists(), FileSearchers()]
+class ReaderToSearcher(object):
+    name = 'reader-to-searcher'
+    describe = ('the modification time the REAL FileReader reports for a source file handed to the real PyFileSearcher / '
+                'AnyFileSearcher / PyPackageSearcher over a destination holding a transformed copy; source and copy times with '
+                'sub-second parts (x.00, x.25, x.75) one second apart, in the same second, and equal: up to date exactly when the '
+                'copy is not older at whole-second resolution (what a .pyc header can record)')
+
+    def blocks(self, tier):
+        return [{'kind': k} for k in ('any', 'py', 'pkg')]
+
+    def cases(self, block, tier):
+        for sfrac in (0.0, 0.25, 0.75):
+            for dsec in (-1, 0, 1):
+                for dfrac in (0.0, 0.25, 0.75):
+                    yield {'kind': block['kind'], 'sfrac': sfrac, 'dsec': dsec, 'dfrac': dfrac}
+
+    def run_case(self, case):
+        from pysmi.reader.localfile import FileReader
+        from pysmi.searcher.anyfile import AnyFileSearcher
+        from pysmi.searcher.pyfile import PyFileSearcher
+        from pysmi.searcher.pypackage import PyPackageSearcher
+        src, dst = scratch(), scratch()
+        pkgname = None
+        try:
+            sp = os.path.join(src, 'FOO-MIB.mib')
+            with open(sp, 'w') as f:
+                f.write('FOO-MIB DEFINITIONS ::= BEGIN END\n')
+            st = SRC_MTIME + case['sfrac']
+            os.utime(sp, (st, st))
+            ext = '.json' if case['kind'] == 'any' else '.py'
+            dp = os.path.join(dst, 'FOO-MIB' + ext)
+            with open(dp, 'w') as f:
+                f.write('x')
+            dt = SRC_MTIME + case['dsec'] + case['dfrac']
+            os.utime(dp, (dt, dt))
+            info, text = FileReader(src).getData('FOO-MIB')
+            if case['kind'] == 'any':
+                s = AnyFileSearcher(dst).setOptions(exts=['.json'])
+            elif case['kind'] == 'py':
+                s = PyFileSearcher(dst)
+            else:
+                with open(os.path.join(dst, '__init__.py'), 'w') as f:
+                    f.write('')
+                pkgname = os.path.basename(dst)
+                sys.path.insert(0, os.path.dirname(dst))
+                s = PyPackageSearcher(pkgname)
+            try:
+                r = s.fileExists('FOO-MIB', info.mtime)
+                got = 'return:%r' % (r,)
+            except error.PySmiFileNotModifiedError:
+                got = 'not-modified'
+            except error.PySmiFileNotFoundError:
+                got = 'not-found'
+            except Exception as exc:
+                got = 'foreign:%s' % type(exc).__name__
+            want = 'not-modified' if int(dt) >= int(st) else 'not-found'
+            vs = []
+            if got != want:
+                vs.append(('C10|reader-to-searcher|%s|answered-%s-where-%s|%s' % (
+                    case['kind'], got, want, 'same-second' if int(dt) == int(st) else 'other-second'),
+                    'source mtime %r (reader reports %r), copy mtime %r' % (st, info.mtime, dt)))
+            return got, vs, 1
+        finally:
+            if pkgname:
+                sys.path.remove(os.path.dirname(dst))
+                for k in [k for k in sys.modules if k == pkgname or k.startswith(pkgname + '.')]:
+                    del sys.modules[k]
+                importlib.invalidate_caches()
+            shutil.rmtree(src, ignore_errors=True)
+            shutil.rmtree(dst, ignore_errors=True)
+
+
+FAMILIES = [SearcherLists(), FileSearchers(), ReaderToSearcher()]
